@@ -30,6 +30,9 @@ pub enum TxEdit {
     TypeVip,
     TypeBlockStake,
     TypeBound,
+    /// spends an output that was created only on a branch that is not the current chain, signed
+    /// by its owner (C01 only; not part of TX_EDITS so that recorded edit indices stay stable)
+    OffChainInput,
 }
 pub const TX_EDITS: [TxEdit; 19] = [
     TxEdit::ForgedSig,
@@ -65,6 +68,8 @@ pub struct EditCtx<'a> {
     pub spent: &'a [Slip],
     /// outputs that exist but are older than the window (for ExpiredInput)
     pub expired: &'a [Slip],
+    /// outputs created only on branches other than the current chain (for OffChainInput)
+    pub offchain: &'a [Slip],
 }
 
 fn out(pk: SaitoPublicKey, amount: u64) -> (SaitoPublicKey, u64) {
@@ -140,6 +145,12 @@ pub fn edited_tx(e: TxEdit, c: &EditCtx) -> Option<Transaction> {
         }
         TxEdit::SpentInput => {
             let s = c.spent.first()?.clone();
+            let owner = (0u8..8).map(key).find(|k| k.0 == s.public_key)?;
+            let amt = s.amount;
+            Some(tx_from_inputs(vec![s], vec![out(owner.0, amt)], &owner, c.ts, vec![]))
+        }
+        TxEdit::OffChainInput => {
+            let s = c.offchain.first()?.clone();
             let owner = (0u8..8).map(key).find(|k| k.0 == s.public_key)?;
             let amt = s.amount;
             Some(tx_from_inputs(vec![s], vec![out(owner.0, amt)], &owner, c.ts, vec![]))
